@@ -198,3 +198,31 @@ Proof.
     rewrite ?Hb, ?N.leb_refl; vsimpl; reflexivity.
 Qed.
 
+
+(* Drain::drop: after the remaining items are dropped, the tail [tail_start, tail_start + tail_len) moves
+   down to the vector's current length (the drain's start) — only if there is a tail and it is not
+   already in place — and the length becomes start + tail_len: VecModel.drain's copy_within and length *)
+Definition vdrain (base start tail_start tail_len : N) : env :=
+  [("self", VRec [("tail_start", VN tail_start); ("tail_len", VN tail_len);
+                  ("vec", VRec [("as_mut", VRec [("len", VN start); ("as_mut_ptr", VN base)])])])].
+Lemma src_vec_drain_drop_ok base start tail_start tail_len :
+  base + tail_start < W -> base + start < W -> start + tail_len < W ->
+  let en := vdrain base start tail_start tail_len in
+  call_fn src_fns en "vec_drain_drop_has_tail" [] = Ret (VB (0 <? tail_len)) /\
+  call_fn src_fns en "vec_drain_drop_must_move" [] = Ret (VB (negb (tail_start =? start))) /\
+  call_fn src_fns en "vec_drain_drop_copy_src" [] = Ret (VN (base + tail_start)) /\
+  call_fn src_fns en "vec_drain_drop_copy_dst" [] = Ret (VN (base + start)) /\
+  call_fn src_fns en "vec_drain_drop_copy_len" [] = Ret (VN tail_len) /\
+  call_fn src_fns en "vec_drain_drop_new_len" [] = Ret (VN (start + tail_len)).
+Proof.
+  intros H1 H2 H3 en. unfold en.
+  assert (T1 : (base + tail_start <? W) = true) by (apply N.ltb_lt; exact H1).
+  assert (T2 : (base + start <? W) = true) by (apply N.ltb_lt; exact H2).
+  assert (T3 : (start + tail_len <? W) = true) by (apply N.ltb_lt; exact H3).
+  repeat match goal with |- _ /\ _ => split end; unfold call_fn;
+    cbv beta iota zeta delta
+      [call_fn eval lookup bind finish meth0 meth1 arith fn_params fn_body src_fns vdrain
+       String.eqb Ascii.eqb Bool.eqb List.app List.combine List.length
+       Datatypes.app Datatypes.length List.rev Nat.eqb FUEL_SEM fst snd];
+    rewrite ?T1, ?T2, ?T3; reflexivity.
+Qed.
